@@ -116,6 +116,10 @@ def gen(rng, tier, idx):
         names = [n for n, _ in layouts]
     cfg['save'] = rng.random() < 0.75
     cfg['default_comm'] = rng.random() < 0.3
+    if rng.random() < 0.25:
+        cfg['twin'] = rng.choice(names)
+        cfg['twin_walk'] = [rng.choice(names) for _ in range(rng.randint(1, 3))]
+        cfg['default_comm'] = False
     cfg['dtype'] = rng.choice(['float64', 'complex128'])
     cfg['start'] = rng.choice(names)
     hist = []
@@ -160,6 +164,15 @@ def run(case, tape=None):
             grid = Grid(eta, [], mgr, case['start'], dtype=dt, allocateSaveMemory=case['save'])     # comm=MPI.COMM_WORLD
         else:
             grid = Grid(eta, [], mgr, case['start'], comm, dtype=dt, allocateSaveMemory=case['save'])
+        eta0 = [np.array(e, copy=True) for e in eta]
+        twin = None
+        if case.get('twin'):
+            # a second Grid on the same layout manager and the same coordinate arrays (as f's and phi's grids
+            # share theirs): whatever is done to one must leave the other alone
+            twin_layout = case['twin']
+            twin = Grid(eta, [], mgr, twin_layout, comm, dtype=dt, allocateSaveMemory=case['save'])
+            G2 = cm.global_array(shape, case['dtype'], 4242)
+            twin.getAllData()[:] = cm.local(G2, mgr.getLayout(twin_layout))
         salt = 0
         G = cm.global_array(shape, case['dtype'], salt)
         grid.getAllData()[:] = cm.local(G, mgr.getLayout(case['start']))
@@ -195,6 +208,15 @@ def run(case, tape=None):
                 raise OracleFail('wrong-data', dict(step=step, op=op, rank=rank, why='get1DSlice is a stale view'))
             if got.size and got.ndim >= 2 and not cm.bits_equal(grid.get2DSlice(*z[:-1]), got[z[:-1]]):
                 raise OracleFail('wrong-data', dict(step=step, op=op, rank=rank, why='get2DSlice is a stale view'))
+            if twin is not None:
+                if twin.currentLayout != twin_layout or \
+                        not cm.bits_equal(twin.getAllData(), cm.local(G2, mgr.getLayout(twin_layout))):
+                    raise OracleFail('wrong-data', dict(step=step, op=op, rank=rank,
+                                                        why='another Grid on the same layout manager was disturbed'))
+            for d_, (e_now, e_was) in enumerate(zip(eta, eta0)):
+                if not cm.bits_equal(e_now, e_was):
+                    raise OracleFail('wrong-data', dict(step=step, op=op, rank=rank, dim=d_,
+                                                        why='the caller\'s coordinate array was modified'))
             if rank == 0:
                 states.add((layout, saved is not None, None if saved is None else saved[1],
                             getattr(grid, '_dataIdx', None), getattr(grid, '_buffIdx', None),
@@ -257,6 +279,15 @@ def run(case, tape=None):
                 elif kind == 'free':
                     saved = None
             compare(step, op)
+        if twin is not None:
+            # and the other way round: move the twin through every layout, the first grid must not notice
+            names_all = [n for n in (case.get('twin_walk') or [])]
+            for n in names_all:
+                twin.setLayout(n)
+                twin_layout = n
+                compare(len(case['history']), ['twin-set', n])
+            if rank == 0:
+                w.probe('two_grids_on_one_manager')
         if rank == 0:
             w.probe('states_seen', len(states))
         return sorted(map(repr, states))
@@ -296,6 +327,11 @@ def shrink(case):
         yield dict(case, history=h[:-1])
         for i in range(len(h)):
             yield dict(case, history=h[:i] + h[i + 1:])
+    if case.get('twin'):
+        c = dict(case)
+        c.pop('twin')
+        c.pop('twin_walk', None)
+        yield c
     if case['dtype'] != 'float64':
         yield dict(case, dtype='float64')
     if case['mgr'] == 'handler':
